@@ -3,6 +3,7 @@ package main
 import (
 	"fmt"
 	"go/constant"
+	"go/token"
 	"sort"
 	"strings"
 
@@ -337,4 +338,115 @@ func c14ImpliedFollowEffective(p *Prog) *RuleResult {
 	}
 	r.Floor(1)
 	return r
+}
+
+// ---------------------------------------------------------------------------------------------
+// C06/R9 ts-modifier-same-line.
+//
+// `declare`, `abstract`, `public`, `private`, `protected`, `readonly`, `override` are ordinary
+// identifiers in JavaScript: `class A { public \n x = 1 }` declares the two fields `public` and `x`.
+// TypeScript treats such a word as a modifier only when the member name follows on the same line
+// (nextTokenIsOnSameLineAndCanFollowModifier). A modifier case of parseProperty that is taken for
+// TypeScript input without looking at Lexer.HasNewlineBefore swallows a field of a valid JavaScript
+// class, so the ts and js loaders disagree on a valid JavaScript program.
+func c06TSModifierSameLine(p *Prog) *RuleResult {
+	r := NewRule("C06/R9 ts-modifier-same-line", "every TypeScript-only modifier case of parseProperty (a re-parse of the member that is conditional on the TypeScript option and on the spelling of the preceding identifier) is also conditional on the member name following on the same line")
+	fn := p.FindFunc("js_parser.(*parser).parseProperty")
+	if !r.Anchor("js_parser.(*parser).parseProperty", fn != nil) {
+		return r
+	}
+	n := 0
+	seen := map[string]int{}
+	eachInstr(fn, func(b *ssa.BasicBlock, in ssa.Instruction) {
+		c, ok := in.(*ssa.Call)
+		if !ok || c.Call.StaticCallee() != fn {
+			return
+		}
+		onTS, sameLine := false, false
+		var words []string
+		for _, ifi := range controlDepIfsTransitive(b) {
+			var vals []ssa.Value
+			condsOfBoolValue(ifi.Cond, &vals, 0)
+			for _, v := range vals {
+				if bo, ok := v.(*ssa.BinOp); ok && bo.Op == token.EQL {
+					if s, ok := constString(bo.Y); ok && reachesWithoutStringTest(ifi.Block().Succs[0], b) {
+						words = append(words, s)
+					}
+				}
+				backSlice(v, func(x ssa.Value) bool {
+					if fa, ok := x.(*ssa.FieldAddr); ok {
+						switch fieldAddrName(fa) {
+						case "Parse":
+							if namedTypeName(fa.X.Type()) == "js_parser.tsOptions" || strings.HasSuffix(namedTypeName(fa.X.Type()), "TSOptions") || strings.Contains(strings.ToLower(namedTypeName(fa.X.Type())), "ts") {
+								onTS = true
+							}
+						case "HasNewlineBefore":
+							sameLine = true
+						}
+					}
+					return true
+				})
+			}
+		}
+		if !onTS || len(words) == 0 {
+			return
+		}
+		sort.Strings(words)
+		word := strings.Join(words, "/")
+		n++
+		seen[word]++
+		r.Instances++
+		key := "parseProperty modifier case " + word
+		if seen[word] > 1 {
+			key += fmt.Sprintf(" #%d", seen[word])
+		}
+		if sameLine {
+			r.OK(key, true, "conditional on !Lexer.HasNewlineBefore")
+		} else {
+			r.Fail(key, p.Pos(c.Pos()), "the identifier is treated as a TypeScript modifier even when the member name is on the next line: `class A { "+words[0]+" \\n x = 1 }` is valid JavaScript with two fields (and TypeScript parses it that way), but the ts loader drops the first field")
+		}
+	})
+	if !r.Anchor("TypeScript-only modifier cases in parseProperty", n >= 2) {
+		return r
+	}
+	r.Floor(2)
+	return r
+}
+
+// edgeDominatesEither: does the true (or false) edge of the If dominate block b?
+func edgeDominatesEither(ifi *ssa.If, b *ssa.BasicBlock, trueEdge bool) bool {
+	idx := 1
+	if trueEdge {
+		idx = 0
+	}
+	return edgeDominates(ifi.Block(), idx, b)
+}
+
+// reachesWithoutStringTest: is `to` reachable from `from` without passing a block that branches on a
+// comparison with a string constant (i.e. without entering another case of the same switch)?
+func reachesWithoutStringTest(from, to *ssa.BasicBlock) bool {
+	seen := map[*ssa.BasicBlock]bool{}
+	work := []*ssa.BasicBlock{from}
+	for len(work) > 0 {
+		x := work[len(work)-1]
+		work = work[:len(work)-1]
+		if x == to {
+			return true
+		}
+		if seen[x] {
+			continue
+		}
+		seen[x] = true
+		if len(x.Instrs) > 0 {
+			if ifi, ok := x.Instrs[len(x.Instrs)-1].(*ssa.If); ok {
+				if bo, ok := ifi.Cond.(*ssa.BinOp); ok && bo.Op == token.EQL {
+					if _, isStr := constString(bo.Y); isStr {
+						continue
+					}
+				}
+			}
+		}
+		work = append(work, x.Succs...)
+	}
+	return false
 }
